@@ -2162,13 +2162,31 @@ def gen_collide(seed):
     return g.finish(probes)
 
 
+def gen_composed(seed):
+    """C15: a chain of single-table verbs with name-based references only (C.<name>), so that the same verb calls can be
+    composed into ONE pipeable first (`v1 >> v2 >> v3`) and applied to the table afterwards."""
+    g = ProgGen(seed, cfg={"c_only": True})
+    rng = g.rng
+    h0 = g.add_table("t", cols=["k", "g", "x", "y", "f", "b", "s"])
+    w = dict(ALL_WEIGHTS)
+    w.pop("alias", None)
+    h = g.chain(h0, rng.randint(2, 6), w, depth=rng.choice([1, 2]))
+    if g.rr.env[h].group:
+        st = g.step_ungroup(h)
+        if g.try_step(st):
+            h = st["out"]
+    g.prog["meta"]["equivalence"] = "precomposed_chain"
+    g.prog["meta"]["composed"] = {"source": h0, "last": h}
+    return g.finish([h])
+
+
 def gen_subq_edges(seed):
     """Directed subquery edge cases: a subquery from which nothing is needed (only 0-ary functions follow), unions
     whose operands are subqueries / unions themselves, subquery chains."""
     g = ProgGen(seed)
     rng = g.rng
     h0 = g.add_table("t", cols=["k", "g", "x", "y", "s", "b"])
-    kind = rng.choice(["zero_cols", "zero_cols_window", "zero_cols_grouped", "union_of_subqueries", "union_of_subqueries", "union_of_subqueries", "union_chain_alias", "alias_chain"])
+    kind = rng.choice(["zero_cols", "zero_cols_window", "zero_cols_grouped", "union_of_subqueries", "union_of_subqueries", "union_of_subqueries", "union_chain_alias", "alias_chain", "order_by_window", "order_by_window"])
     g.features.add("subq_edge:" + kind)
     h = h0
     probes = []
@@ -2200,6 +2218,25 @@ def gen_subq_edges(seed):
             do({"verb": "mutate", "kw": [["n", fn("count_star")]]})
             do({"verb": "select", "cols": [cname("n")]})
         probes.append(h)
+    elif kind == "order_by_window":
+        # arrange by a window / aggregate column, then a window function WITHOUT arrange=: it follows the verb order, so
+        # the sort key (a window function) ends up inside its OVER clause - SubqueryError or a correct statement
+        w = rng.choice([
+            fn("cum_sum", cname("x"), arr=[{"e": key, "desc": False, "nl": None}]),
+            fn("row_number", arr=[{"e": cname("x"), "desc": True, "nl": True}, {"e": key, "desc": False, "nl": None}]),
+            fn("sum", cname("x"), pb=[cname("g")]),
+            fn("add", fn("max", cname("y"), pb=[cname("g")]), lit(1)),
+        ])
+        do({"verb": "mutate", "kw": [["w", w]]})
+        do({"verb": "arrange", "by": [{"e": cname("w"), "desc": rng.random() < 0.5, "nl": rng.choice([None, True, False])}, {"e": key, "desc": False, "nl": None}]})
+        if rng.random() < 0.4:
+            do({"verb": "alias", "keep": rng.random() < 0.5})
+        follow = rng.choice([fn("row_number"), fn("shift", cname("x"), lit(1)), fn("add", fn("shift", cname("y"), lit(-1), lit(0)), fn("row_number"))])
+        do({"verb": "mutate", "kw": [["r", follow]]})
+        probes.append(h)
+        if rng.random() < 0.4:
+            do({"verb": "slice_head", "n": rng.choice([2, 4]), "offset": rng.choice([0, 1])})
+            probes.append(h)
     elif kind in ("union_of_subqueries", "union_chain_alias"):
         # mostly: operands that agree on most columns, so that a comparison on fewer columns would merge rows
         h1 = g.add_table_like(h0, "u", change=(rng.choice(["y", "x", "k"]),)) if rng.random() < 0.7 else g.add_table("u", cols=["k", "g", "x", "y", "s", "b"], shape="small_dups", nrows=rng.randint(0, 5))
